@@ -1,15 +1,8 @@
 SPECIFICATION TSpec
 CONSTANTS
-  NB <- TNB
-  IL <- TIL
-  RowSz <- TRowSz
-  Width <- TWidth
-  Track <- TTrack
-  Deviations <- TDev
+  Config = 0
   PortCap = 1000000
   PostCap = 1000000
   Payloads = {}
   MaxReq = 0
-CONSTRAINT Mark
-POSTCONDITION Accepted
 CHECK_DEADLOCK FALSE
